@@ -338,6 +338,9 @@ pub fn cow_alphabet(g: &Geo) -> Vec<Op> {
     }
     w(cs - bs, 2 * bs, &mut ops); // straddling source clusters 0|1
     w(cs, cs, &mut ops); // whole source cluster 1
+    if cs > bs {
+        w(2 * cs - bs, bs, &mut ops); // tail of source cluster 1 (at / behind the end of a 1.5-cluster backing image)
+    }
     w(2 * cs + (cs / 2 / bs * bs), bs.min(cs / 2).max(bs), &mut ops); // middle of source cluster 2
     w(cs, 3 * cs, &mut ops); // batch over clusters 1..3 (own + source)
     w(4 * cs, bs, &mut ops); // beyond a short backing image / unallocated
@@ -381,4 +384,26 @@ pub fn discard_alphabet(g: &Geo) -> Vec<Op> {
     ops.push(Op::Flush);
     ops.push(Op::Reopen);
     ops
+}
+
+
+/// reduced discard alphabet for deeper histories with slices bigger than the block size:
+/// mappings pending in one flush block of a slice while another block's entries are discarded
+pub fn discard_alphabet_small(g: &Geo) -> Vec<Op> {
+    let (bs, cs, v) = (g.bs(), g.cs(), g.vsize());
+    let far = 100u64.min(v / cs - 2); // an entry in another 512-byte block of the slice
+    vec![
+        Op::Discard { off: 0, len: cs },
+        Op::Discard { off: 0, len: 2 * cs },
+        Op::Discard { off: bs, len: 2 * cs },
+        Op::Discard { off: cs, len: cs + cs / 2 },
+        Op::Discard { off: far * cs, len: cs },
+        Op::Discard { off: 0, len: v },
+        Op::Write { off: 0, len: (3 * cs) as usize, tag: 1 },
+        Op::Write { off: cs, len: bs as usize, tag: 2 },
+        Op::Write { off: far * cs, len: cs as usize, tag: 3 },
+        Op::Write { off: (far + 1) * cs, len: bs as usize, tag: 4 },
+        Op::Flush,
+        Op::Reopen,
+    ]
 }
